@@ -9,6 +9,7 @@ import (
 	"github.com/vapourismo/knx-go/knx"
 	"github.com/vapourismo/knx-go/knx/knxnet"
 	"github.com/vapourismo/knx-go/verifmc/mc"
+	"github.com/vapourismo/knx-go/verifmc/vnet"
 	"verifh/harness/fakesock"
 	"verifh/harness/h"
 )
@@ -292,7 +293,98 @@ func c10Oracle(p c10Params) func(tr *mc.Trace) []h.Violation {
 	}
 }
 
+// c10FullStack: the real constructor and the real socket layer on the virtual network, so that the
+// socket's receiver goroutine (started by the tunnel's constructor) is part of the census. The peer
+// keeps sending datagrams around the instant of Close.
+func c10FullStack(tcp bool) func() {
+	return func() {
+		w := vnet.Reset()
+		var ep *vnet.Endpoint
+		w.OnCreate = func(e *vnet.Endpoint) {
+			ep = e
+			e.OnWrite = func(wr vnet.WriteRec) {
+				var v knxnet.Service
+				if _, err := knxnet.Unpack(wr.Data, &v); err != nil {
+					return
+				}
+				switch x := v.(type) {
+				case *knxnet.ConnReq:
+					e.Inject(knxnet.AllocAndPack(&knxnet.ConnRes{Channel: 7, Status: 0, Control: knxnet.HostInfo{Protocol: knxnet.UDP4}}), nil)
+				case *knxnet.TunnelReq:
+					if !tcp {
+						e.Inject(knxnet.AllocAndPack(&knxnet.TunnelRes{Channel: x.Channel, SeqNumber: x.SeqNumber, Status: 0}), nil)
+					}
+				case *knxnet.ConnStateReq:
+					e.Inject(knxnet.AllocAndPack(&knxnet.ConnStateRes{Channel: x.Channel, Status: 0}), nil)
+				case *knxnet.DiscReq:
+					mc.Log(fakesock.Sent{T: mc.Now(), Svc: x})
+				}
+			}
+		}
+		cfg := TCfg(100, 300, 100000)
+		cfg.UseTCP = tcp
+		t, err := knx.NewTunnel("192.0.2.99:3671", knxnet.TunnelLayerData, cfg)
+		if err != nil {
+			mc.Log(Note("connect failed: " + err.Error()))
+			return
+		}
+		reader := mc.Choose(2, mc.Free) == 0
+		if reader {
+			mc.GoEnv("reader", func() {
+				for {
+					m, ok := t.Inbound().Recv2()
+					if !ok {
+						mc.Log(Note("inbound closed"))
+						return
+					}
+					mc.Log(Rx{ID: MsgID(m), From: "tunnel"})
+				}
+			})
+		}
+		// the gateway keeps talking: one telegram before, several around and after the Close instant
+		mc.GoEnv("peer", func() {
+			for i := 0; i < 4; i++ {
+				ep.Inject(knxnet.AllocAndPack(&knxnet.TunnelReq{Channel: 7, SeqNumber: uint8(i), Payload: Msg(100 + i)}), nil)
+				if i == 0 {
+					mc.Sleep(50 * ms)
+				}
+			}
+		})
+		mc.Sleep(50 * ms)
+		mc.Log(Call{"Close", 0})
+		t0 := mc.Now()
+		t.Close()
+		mc.Log(Ret{"Close", 0, fmt.Sprintf("usable=%v", true), t0})
+		mc.Log(Call{"Send", 99})
+		err = t.Send(Msg(99))
+		mc.Log(Ret{"Send", 99, errStr(err), mc.Now()})
+		if !reader {
+			mc.GoEnv("late-reader", func() {
+				for {
+					if _, ok := t.Inbound().Recv2(); !ok {
+						mc.Log(Note("inbound closed"))
+						return
+					}
+				}
+			})
+		}
+		mc.Sleep(100 * ms)
+		var desc []string
+		n := 0
+		for _, g := range mc.Live() {
+			if !g.Env {
+				n++
+				desc = append(desc, fmt.Sprintf("[g%d %s %s]", g.ID, g.Site, g.Pending))
+			}
+		}
+		mc.Log(Census{n, strings.Join(desc, " ")})
+	}
+}
+
 func init() {
+	pfs := c10Params{base: "fullstack", closers: 1}
+	register("both", &h.Scenario{Name: "C10-fullstack-udp-peer-talks-during-close", Prop: "C10", P: 2, F: 0, D: 2, Run: c10FullStack(false), Check: c10Oracle(pfs)})
+	register("both", &h.Scenario{Name: "C10-fullstack-tcp-peer-talks-during-close", Prop: "C10", P: 2, F: 0, D: 2, Run: c10FullStack(true), Check: c10Oracle(pfs)})
 	inst := []int{0, 50, 100, 150, 200, 300, 450, 500, 550, 650, 800}
 	for _, base := range []string{"send", "inbound", "heartbeat", "reconnect-2sends", "sockdead", "idle"} {
 		for _, reader := range []bool{true, false} {
